@@ -259,6 +259,8 @@ def make_disl(case):
 
 
 def _err_class(e):
+    if isinstance(e, TypeError) and 'complex' in str(e):
+        return 'solver'                                   # the elastic solver returned a complex field (C12's subject)
     if isinstance(e, TypeError):
         return 'type'
     if isinstance(e, AssertionError):
@@ -720,8 +722,10 @@ def _correspond_config(ctx, case, raw, ucell, d, cfg, stats, jobs):
     # shift resolution happens inside the generator; replicate the call on a fresh object so that `d` keeps its state
     res = run_config(d, cfg)
     label = f'{raw["crystal"]} b={raw["burgers"]} xi={raw["xi"]} hkl={raw["hkl"]} m={raw["m"]} n={raw["n"]} {cfg}'
-    if res[0] == 'err' and res[1] == 'index':
-        return                                            # shiftindex out of range: numpy's own refusal
+    if res[0] == 'err' and res[1] in ('index', 'solver'):
+        if res[1] == 'solver':
+            stats['solver_refused'] += 1
+        return                                            # shiftindex out of range / complex elastic field
     shift = np.asarray(d.shift, dtype=float)
     qs, center, width = _resolved(d, cfg, ucell)
     # multipliers first (cheap, also covers the TypeError refusal)
@@ -1449,6 +1453,8 @@ def _oracle_refusal(ctx, np, d, cfg, res, ucell, info, label):
     kind = cfg['kind']
     sm = cfg.get('sizemults')
     line = d.lineindex
+    if cls == 'solver':
+        return
     if cls == 'type':
         ok = sm is not None and (any((not isinstance(x, int)) or x <= 0 for x in sm)
                                  or any(sm[i] % 2 for i in range(3) if i != line))
@@ -1470,7 +1476,34 @@ def _oracle_refusal(ctx, np, d, cfg, res, ucell, info, label):
                         f'{np.abs(zz).min()}', info)
         return
     if cls in ('value nonint', 'value mismatch') and kind == 'array':
-        return                                            # documented refusals (checked against the model in correspond)
+        # documented refusals; the expected count quoted in the message must be the one the edge component implies
+        import re
+        mm = re.search(r'expected (-?\d+), found (-?\d+)', res[2])
+        if mm:
+            try:
+                sizes = []
+                for i in range(3):
+                    s_ = 2 if sm is None else sm[i]
+                    if sm is None and i == line:
+                        s_ = 1
+                    sizes.append(s_)
+                qs_, _c, _w = _resolved(d, cfg, ucell)
+                for i in range(3):
+                    if qs_[i] is not None:
+                        q = qs_[i] + (1 if (i != line and qs_[i] % 2) else 0)
+                        sizes[i] = max(sizes[i], q)
+                bv = np.asarray(d.rcell.box.vects) * np.array(sizes)[:, None]
+                b = np.asarray(d.dislsol.burgers)
+                mvec = np.asarray(d.dislsol.m)
+                N0 = d.rcell.natoms * sizes[0] * sizes[1] * sizes[2]
+                rec = np.linalg.inv(bv).T
+                implied = N0 * abs(b.dot(rec[d.motionindex])) / 2     # natoms (1 - V'/V) for the shrinking tilt
+                if abs(implied - int(mm.group(1))) > 1e-6 * max(1.0, N0):
+                    ctx.violate('array:refusal-count', f'{label}: refused with expected {mm.group(1)} atoms to delete, the '
+                                f'edge component implies {implied}', info)
+            except Exception:  # noqa
+                pass
+        return
     ctx.violate(kind + ':refusal', f'{label}: unexpected refusal {cls}: {res[2]}', info)
 
 
@@ -1507,6 +1540,18 @@ def _search_case(ctx, case, raw, ncfg, stats):
                        nontrivial=(res[0] == 'ok'))
         stats[kind] += 1
         if res[0] == 'err':
+            if res[1] == 'solver':
+                # a complex elastic field is only acceptable when an atomic plane lies on the slip plane (the branch
+                # cut of the solution), i.e. the documented precondition on the shift is violated
+                stats['solver_refused'] += 1
+                qs_, center_, _w = _resolved(d, cfg, ucell)
+                W = d.rcell.box.vects[d.cutindex, d.cutindex]
+                z = np.asarray(d.rcell.atoms.pos)[:, d.cutindex] + np.asarray(d.shift)[d.cutindex] - center_[d.cutindex]
+                zz = np.mod(z + W / 2, W) - W / 2
+                if np.abs(zz).min() > 1e-6 * W:
+                    ctx.violate(kind + ':complex-field', f'{lab}: the generator failed on a complex elastic field although no '
+                                f'atomic plane lies on the slip plane ({res[2]})', cinfo)
+                continue
             if res[1] == 'index':
                 continue
             stats['refusals'] += 1
